@@ -44,16 +44,22 @@ structure GInv (p : Params) (st : Store) : Prop where
   pres : st.present = true → st.created = true
   tgt : st.created = true → st.code.TargetClientID = p.tc ∧ st.code.TargetAddress = p.ta
 
+/-- A request that spells the code differently never gets anything. -/
+structure OInv (t : Thread) : Prop where
+  noOk : ∀ m, t.res ≠ some (.ok m)
+  noRok : t.res ≠ some .rok
+
 structure Inv (p : Params) (c : Config) : Prop where
   g : GInv p c.st
-  t : ∀ i t, c.ths[i]? = some t → TInv p c.st i t
-  pendOwner : ∀ m, c.st.pending = some m → ∃ t, c.ths[m.owner]? = some t ∧ t.pc.hasPending = true
+  t : ∀ i t, c.ths[i]? = some t → t.spell = 0 → TInv p c.st i t
+  o : ∀ (i : Nat) (t : Thread), c.ths[i]? = some t → t.spell ≠ 0 → OInv t
+  pendOwner : ∀ m, c.st.pending = some m → ∃ t, c.ths[m.owner]? = some t ∧ t.spell = 0 ∧ t.pc.hasPending = true
   okOwner : ∀ m, c.st.okMap = some m → ∃ t, c.ths[m.owner]? = some t ∧ t.res = some (.ok m)
 
 /-- A thread outside its critical section does not touch the store while somebody holds the claim. -/
 theorem tstep_store_eq (p : Params) (st : Store) (i : Nat) (t : Thread)
-    (h1 : t.pc.inCS = false) (h2 : st.claim ≠ none) : (tstep .repaired p st i t).1 = st := by
-  cases hk : t.kind <;> cases hpc : t.pc <;> simp_all [tstep, Pc.inCS, claimStep] <;>
+    (h1 : t.pc.inCS = false) (h2 : st.claim ≠ none) : (tstepMain .repaired p st i t).1 = st := by
+  cases hk : t.kind <;> cases hpc : t.pc <;> simp_all [tstepMain, Pc.inCS, claimStep] <;>
     (repeat' split) <;> simp_all
 
 /-! ### the store invariant under each kind of store change -/
@@ -152,7 +158,7 @@ theorem stepOut_done {p st i t} (r : Res) (hg : GInv p st) (ht : TInv p st i t) 
   · left; exact ⟨rfl, fun m hm => absurd hm (ht.noOk (by simp [hpc]) (by simp [hpc]) m)⟩
 
 theorem step_start {p st i t} (hg : GInv p st) (ht : TInv p st i t) (hpc : t.pc = .start) :
-    StepOut p st i t (tstep .repaired p st i t).1 (tstep .repaired p st i t).2 := by
+    StepOut p st i t (tstepMain .repaired p st i t).1 (tstepMain .repaired p st i t).2 := by
   have hclaim : StepOut p st i t (claimStep st i t).1 (claimStep st i t).2 := by
     unfold claimStep
     split
@@ -166,7 +172,7 @@ theorem step_start {p st i t} (hg : GInv p st) (ht : TInv p st i t) (hpc : t.pc 
           constructor <;> simp_all [Pc.inCS, Pc.critical, Pc.hasPending]
         · simp [hpc, Pc.hasPending]
         · left; exact ⟨rfl, fun m hm => absurd hm (hno m)⟩
-  cases hk : t.kind <;> simp only [tstep, hk, hpc]
+  cases hk : t.kind <;> simp only [tstepMain, hk, hpc]
   · split
     · simpa [hk] using stepOut_done .missing hg ht hpc (by simp)
     · simpa using hclaim
@@ -191,13 +197,13 @@ theorem valid_unfold {now : Nat} {c : TunnelConnectionCode} {l : Nat}
   cases h1 : c.IsRevoked <;> cases h2 : c.IsActivated <;> cases h3 : TunnelConnectionCode.IsExpired now c <;> simp_all
 
 theorem step_claimed {p st i t} (hg : GInv p st) (ht : TInv p st i t) (hpc : t.pc = .claimed) :
-    StepOut p st i t (tstep .repaired p st i t).1 (tstep .repaired p st i t).2 := by
+    StepOut p st i t (tstepMain .repaired p st i t).1 (tstepMain .repaired p st i t).2 := by
   have hcs : t.pc.inCS = true := by simp [hpc, Pc.inCS]
   have hnp : t.pc.hasPending = false := by simp [hpc, Pc.hasPending]
   have hno := ht.noOk (by simp [hpc]) (by simp [hpc])
   have hclaim := ht.claim hcs
   have hrok := ht.resRok
-  cases hk : t.kind <;> simp only [tstep, hk, hpc]
+  cases hk : t.kind <;> simp only [tstepMain, hk, hpc]
   · unfold getStepA
     split
     · exact stepOut_fail _ hg ht hcs hnp hno (by simp)
@@ -235,7 +241,7 @@ theorem step_claimed {p st i t} (hg : GInv p st) (ht : TInv p st i t) (hpc : t.p
           · left; exact ⟨rfl, fun m hm => absurd hm (hno m)⟩
 
 theorem step_checked {p st i t} (hg : GInv p st) (ht : TInv p st i t) (hpc : t.pc = .checked) :
-    StepOut p st i t (tstep .repaired p st i t).1 (tstep .repaired p st i t).2 := by
+    StepOut p st i t (tstepMain .repaired p st i t).1 (tstepMain .repaired p st i t).2 := by
   have hcs : t.pc.inCS = true := by simp [hpc, Pc.inCS]
   have hnp : t.pc.hasPending = false := by simp [hpc, Pc.hasPending]
   have hno := ht.noOk (by simp [hpc]) (by simp [hpc])
@@ -243,7 +249,7 @@ theorem step_checked {p st i t} (hg : GInv p st) (ht : TInv p st i t) (hpc : t.p
   have hrok := ht.resRok
   have hcrit := ht.crit (by simp [hpc, Pc.critical])
   have hact := ht.act (by simp [hpc])
-  cases hk : t.kind <;> simp only [tstep, hk, hpc] <;>
+  cases hk : t.kind <;> simp only [tstepMain, hk, hpc] <;>
   · split
     · exact stepOut_fail _ hg ht hcs hnp hno (by simp)
     · split
@@ -255,7 +261,7 @@ theorem step_checked {p st i t} (hg : GInv p st) (ht : TInv p st i t) (hpc : t.p
 
 theorem step_decided {p st i t} (hg : GInv p st) (ht : TInv p st i t) (hpc : t.pc = .decided)
     (hp : ∀ m, st.pending = some m → t.pc.inCS = true → t.pc.hasPending = true) :
-    StepOut p st i t (tstep .repaired p st i t).1 (tstep .repaired p st i t).2 := by
+    StepOut p st i t (tstepMain .repaired p st i t).1 (tstepMain .repaired p st i t).2 := by
   have hcs : t.pc.inCS = true := by simp [hpc, Pc.inCS]
   have hnp : t.pc.hasPending = false := by simp [hpc, Pc.hasPending]
   have hno := ht.noOk (by simp [hpc]) (by simp [hpc])
@@ -268,7 +274,7 @@ theorem step_decided {p st i t} (hg : GInv p st) (ht : TInv p st i t) (hpc : t.p
     cases h : st.pending with
     | none => rfl
     | some m => have := hp m h hcs; simp [hnp] at this
-  cases hk : t.kind <;> simp only [tstep, hk, hpc] <;>
+  cases hk : t.kind <;> simp only [tstepMain, hk, hpc] <;>
   · split
     · exact stepOut_fail _ hg ht hcs hnp hno (by simp)
     · refine ⟨ginv_create _ hg hpn rfl rfl, ?_, .inl rfl, .inl rfl, rfl, ?_, ?_, by simp [callOf, hk]⟩
@@ -295,7 +301,7 @@ theorem updateRec_ok (st : Store) (t : Thread) (h : (updateRec st t).2 = true) :
   unfold updateRec at h ⊢; (repeat' split) <;> simp_all
 
 theorem step_created {p st i t} (hg : GInv p st) (ht : TInv p st i t) (hpc : t.pc = .created) :
-    StepOut p st i t (tstep .repaired p st i t).1 (tstep .repaired p st i t).2 := by
+    StepOut p st i t (tstepMain .repaired p st i t).1 (tstepMain .repaired p st i t).2 := by
   have hcs : t.pc.inCS = true := by simp [hpc, Pc.inCS]
   have hno := ht.noOk (by simp [hpc]) (by simp [hpc])
   have hclaim := ht.claim hcs
@@ -306,7 +312,7 @@ theorem step_created {p st i t} (hg : GInv p st) (ht : TInv p st i t) (hpc : t.p
   obtain ⟨m, hm, hpend, hown, hpre, htup, hmid⟩ := ht.pend (by simp [hpc, Pc.hasPending])
   have hf := updateRec_fields st t
   have hgu := updateRec_ginv t hg hcrit.1 hcrit.2.1 hcrit.2.2 hact.2
-  cases hk : t.kind <;> simp only [tstep, hk, hpc, hm] <;>
+  cases hk : t.kind <;> simp only [tstepMain, hk, hpc, hm] <;>
   · split
     · rename_i hsucc
       have hrec := updateRec_ok st t hsucc
@@ -322,20 +328,20 @@ theorem step_created {p st i t} (hg : GInv p st) (ht : TInv p st i t) (hpc : t.p
       constructor <;> simp_all [Pc.inCS, Pc.critical, Pc.hasPending]
 
 theorem step_rollback {p st i t} (hg : GInv p st) (ht : TInv p st i t) (hpc : t.pc = .rollback) :
-    StepOut p st i t (tstep .repaired p st i t).1 (tstep .repaired p st i t).2 := by
+    StepOut p st i t (tstepMain .repaired p st i t).1 (tstepMain .repaired p st i t).2 := by
   have hcs : t.pc.inCS = true := by simp [hpc, Pc.inCS]
   have hno := ht.noOk (by simp [hpc]) (by simp [hpc])
   have hclaim := ht.claim hcs
   have hrok := ht.resRok
   have hcrit := ht.crit (by simp [hpc, Pc.critical])
   obtain ⟨m, hm, hpend, hown, hpre, htup, hmid⟩ := ht.pend (by simp [hpc, Pc.hasPending])
-  cases hk : t.kind <;> simp only [tstep, hk, hpc, hm] <;>
+  cases hk : t.kind <;> simp only [tstepMain, hk, hpc, hm] <;>
   · refine ⟨ginv_rollback m hg hcrit.1 hpend, ?_, .inl rfl, .inl rfl, rfl, .inr (.inl rfl),
       .inl ⟨rfl, fun m' hm' => absurd hm' (hno m')⟩, by simp [callOf, hk]⟩
     constructor <;> simp_all [Pc.inCS, Pc.critical, Pc.hasPending]
 
 theorem step_revUpd {p st i t} (hg : GInv p st) (ht : TInv p st i t) (hpc : t.pc = .revUpd) :
-    StepOut p st i t (tstep .repaired p st i t).1 (tstep .repaired p st i t).2 := by
+    StepOut p st i t (tstepMain .repaired p st i t).1 (tstepMain .repaired p st i t).2 := by
   have hcs : t.pc.inCS = true := by simp [hpc, Pc.inCS]
   have hno := ht.noOk (by simp [hpc]) (by simp [hpc])
   have hclaim := ht.claim hcs
@@ -344,7 +350,7 @@ theorem step_revUpd {p st i t} (hg : GInv p st) (ht : TInv p st i t) (hpc : t.pc
   have hrev := ht.rev hpc
   have hf := updateRec_fields st t
   have hgu := updateRec_ginv t hg hcrit.1 hcrit.2.1 hcrit.2.2 hrev.2.2
-  cases hk : t.kind <;> simp only [tstep, hk, hpc] <;>
+  cases hk : t.kind <;> simp only [tstepMain, hk, hpc] <;>
   · split
     · rename_i hsucc
       have hrec := updateRec_ok st t hsucc
@@ -359,10 +365,10 @@ theorem step_revUpd {p st i t} (hg : GInv p st) (ht : TInv p st i t) (hpc : t.pc
       constructor <;> simp_all [fin, Pc.inCS, Pc.critical, Pc.hasPending]
 
 theorem step_releasing {p st i t} (hg : GInv p st) (ht : TInv p st i t) (hpc : t.pc = .releasing) :
-    StepOut p st i t (tstep .repaired p st i t).1 (tstep .repaired p st i t).2 := by
+    StepOut p st i t (tstepMain .repaired p st i t).1 (tstepMain .repaired p st i t).2 := by
   have h1 := ht.resOk
   have h2 := ht.resRok
-  cases hk : t.kind <;> simp only [tstep, hk, hpc] <;>
+  cases hk : t.kind <;> simp only [tstepMain, hk, hpc] <;>
   · split
     · refine ⟨hg, ?_, .inl rfl, .inl rfl, rfl, .inl ⟨rfl, by simp [hpc, Pc.hasPending]⟩, .inl ⟨rfl, fun _ h => h⟩, by simp [callOf, hk]⟩
       constructor <;> simp_all [Pc.inCS, Pc.critical, Pc.hasPending]
@@ -370,13 +376,13 @@ theorem step_releasing {p st i t} (hg : GInv p st) (ht : TInv p st i t) (hpc : t
       constructor <;> simp_all [Pc.inCS, Pc.critical, Pc.hasPending]
 
 theorem step_done {p st i t} (hg : GInv p st) (ht : TInv p st i t) (hpc : t.pc = .done) :
-    StepOut p st i t (tstep .repaired p st i t).1 (tstep .repaired p st i t).2 := by
-  cases hk : t.kind <;> simp only [tstep, hk, hpc] <;>
+    StepOut p st i t (tstepMain .repaired p st i t).1 (tstepMain .repaired p st i t).2 := by
+  cases hk : t.kind <;> simp only [tstepMain, hk, hpc] <;>
   exact ⟨hg, ht, .inl rfl, .inl rfl, rfl, .inl ⟨rfl, fun h => h⟩, .inl ⟨rfl, fun _ h => h⟩, rfl⟩
 
 theorem tstep_out {p st i t} (hg : GInv p st) (ht : TInv p st i t)
     (hp : ∀ m, st.pending = some m → t.pc.inCS = true → t.pc.hasPending = true) :
-    StepOut p st i t (tstep .repaired p st i t).1 (tstep .repaired p st i t).2 := by
+    StepOut p st i t (tstepMain .repaired p st i t).1 (tstepMain .repaired p st i t).2 := by
   cases hpc : t.pc
   · exact step_start hg ht hpc
   · exact step_claimed hg ht hpc
@@ -418,59 +424,131 @@ theorem TInv.frame {p st st' j tj} (h : TInv p st j tj) (hcs : tj.pc.inCS = fals
     · rw [h3]; exact this
     · exact ⟨h3, this.2⟩
 
+/-- claims of other spellings are invisible to the invariants -/
+theorem ginv_oclaims {p st} (l : List Nat) (h : GInv p st) : GInv p { st with oclaims := l } := by
+  cases h; constructor <;> simp_all
+
+theorem tinv_oclaims {p st i t} (l : List Nat) (h : TInv p st i t) : TInv p { st with oclaims := l } i t := by
+  cases h; constructor <;> simp_all
+
+theorem tstepO_out (st : Store) (t : Thread) (ho : OInv t) :
+    (∃ l, (tstepO .repaired st t).1 = { st with oclaims := l }) ∧ OInv (tstepO .repaired st t).2 ∧
+    callOf (tstepO .repaired st t).2 = callOf t := by
+  have h1 := ho.noOk
+  have h2 := ho.noRok
+  have hsame : ∃ l, st = { st with oclaims := l } := ⟨st.oclaims, rfl⟩
+  have hkeep : ∀ pc, OInv { t with pc := pc } := fun pc => ⟨h1, h2⟩
+  have hset : ∀ pc (r : Res), (∀ m, r ≠ .ok m) → r ≠ .rok → OInv { t with pc := pc, res := some r } :=
+    fun pc r a b => ⟨fun m hm => a m (by simpa using hm), fun hm => b (by simpa using hm)⟩
+  have hget : OInv (fin .repaired t (if t.fault = .get then .storage else .notfound)) := by
+    unfold fin; simp only [↓reduceIte]
+    exact hset _ _ (by intro m; split <;> simp) (by split <;> simp)
+  unfold tstepO
+  split
+  · split
+    · exact ⟨hsame, hset _ _ (by simp) (by simp), rfl⟩
+    · simp only [↓reduceIte]
+      split
+      · exact ⟨hsame, hset _ _ (by simp) (by simp), rfl⟩
+      · split
+        · exact ⟨hsame, hset _ _ (by simp) (by simp), rfl⟩
+        · exact ⟨⟨_, rfl⟩, hkeep _, rfl⟩
+  · exact ⟨hsame, hget, rfl⟩
+  · split
+    · exact ⟨hsame, hkeep _, rfl⟩
+    · exact ⟨⟨_, rfl⟩, hkeep _, rfl⟩
+  · exact ⟨hsame, hkeep _, rfl⟩
+
 theorem inv_th {p c} (i : Nat) (h : Inv p c) : Inv p (step .repaired p c (.th i)) := by
   simp only [step]
   cases hti : c.ths[i]? with
   | none => exact h
   | some t =>
     simp only
-    have hT := h.t i t hti
     have hlt : i < c.ths.length := by
       rcases List.getElem?_eq_some_iff.mp hti with ⟨hl, _⟩; exact hl
-    have hp : ∀ m, c.st.pending = some m → t.pc.inCS = true → t.pc.hasPending = true := by
-      intro m hm hcs
-      obtain ⟨to, hto, hpo⟩ := h.pendOwner m hm
-      have h1 := (h.t _ to hto).claim (Pc.inCS_of_hasPending hpo)
-      have h2 := hT.claim hcs
-      rw [h1] at h2; simp at h2; subst h2
-      rw [hti] at hto; simp at hto; subst hto; exact hpo
-    have out := tstep_out h.g hT hp
-    have hself : (c.ths.set i (tstep .repaired p c.st i t).2)[i]? = some (tstep .repaired p c.st i t).2 := by
-      simp [hlt]
-    refine ⟨out.ginv, ?_, ?_, ?_⟩
-    · intro j tj hj
-      by_cases hij : i = j
-      · subst hij; rw [hself] at hj; simp at hj; subst hj; exact out.tinv
-      · rw [List.getElem?_set_ne hij] at hj
-        have hTj := h.t j tj hj
-        cases hcs : tj.pc.inCS with
-        | true =>
-          have hcj := hTj.claim hcs
-          have hci : t.pc.inCS = false := by
-            cases hc : t.pc.inCS with
-            | false => rfl
-            | true => have := hT.claim hc; rw [hcj] at this; simp at this; exact absurd this.symm hij
-          rw [tstep_store_eq p c.st i t hci (by rw [hcj]; simp)]; exact hTj
-        | false => exact hTj.frame hcs out.okMono out.revMono
-    · intro m hm
-      rcases out.pend with ⟨h1, h2⟩ | h1 | ⟨m', h1, h2, h3⟩
-      · rw [h1] at hm
-        obtain ⟨to, hto, hpo⟩ := h.pendOwner m hm
-        by_cases hij : i = m.owner
-        · subst hij; rw [hti] at hto; simp at hto; subst hto
-          exact ⟨_, hself, h2 hpo⟩
-        · exact ⟨to, by rw [List.getElem?_set_ne hij]; exact hto, hpo⟩
-      · rw [h1] at hm; simp at hm
-      · rw [h1] at hm; simp at hm; subst hm; subst h2; exact ⟨_, hself, h3⟩
-    · intro m hm
-      rcases out.okO with ⟨h1, h2⟩ | ⟨m', h1, h2, h3⟩
-      · rw [h1] at hm
+    by_cases hs : t.spell = 0
+    · have htm : tstep .repaired p c.st i t = tstepMain .repaired p c.st i t := by simp [tstep, hs]
+      rw [htm]
+      have hT := h.t i t hti hs
+      have hp : ∀ m, c.st.pending = some m → t.pc.inCS = true → t.pc.hasPending = true := by
+        intro m hm hcs
+        obtain ⟨to, hto, hso, hpo⟩ := h.pendOwner m hm
+        have h1 := (h.t _ to hto hso).claim (Pc.inCS_of_hasPending hpo)
+        have h2 := hT.claim hcs
+        rw [h1] at h2; simp at h2; subst h2
+        rw [hti] at hto; simp at hto; subst hto; exact hpo
+      have out := tstep_out h.g hT hp
+      have hsp : (tstepMain .repaired p c.st i t).2.spell = 0 := by
+        have := congrArg Call.spell out.call; simpa [callOf, hs] using this
+      have hself : (c.ths.set i (tstepMain .repaired p c.st i t).2)[i]? = some (tstepMain .repaired p c.st i t).2 := by
+        simp [hlt]
+      refine ⟨out.ginv, ?_, ?_, ?_, ?_⟩
+      · intro j tj hj hsj
+        by_cases hij : i = j
+        · subst hij; rw [hself] at hj; simp at hj; subst hj; exact out.tinv
+        · rw [List.getElem?_set_ne hij] at hj
+          have hTj := h.t j tj hj hsj
+          cases hcs : tj.pc.inCS with
+          | true =>
+            have hcj := hTj.claim hcs
+            have hci : t.pc.inCS = false := by
+              cases hc : t.pc.inCS with
+              | false => rfl
+              | true => have := hT.claim hc; rw [hcj] at this; simp at this; exact absurd this.symm hij
+            rw [tstep_store_eq p c.st i t hci (by rw [hcj]; simp)]; exact hTj
+          | false => exact hTj.frame hcs out.okMono out.revMono
+      · intro j tj hj hsj
+        by_cases hij : i = j
+        · subst hij; rw [hself] at hj; simp at hj; subst hj; exact absurd hsp hsj
+        · rw [List.getElem?_set_ne hij] at hj; exact h.o j tj hj hsj
+      · intro m hm
+        rcases out.pend with ⟨h1, h2⟩ | h1 | ⟨m', h1, h2, h3⟩
+        · rw [h1] at hm
+          obtain ⟨to, hto, hso, hpo⟩ := h.pendOwner m hm
+          by_cases hij : i = m.owner
+          · subst hij; rw [hti] at hto; simp at hto; subst hto
+            exact ⟨_, hself, hsp, h2 hpo⟩
+          · exact ⟨to, by rw [List.getElem?_set_ne hij]; exact hto, hso, hpo⟩
+        · rw [h1] at hm; simp at hm
+        · rw [h1] at hm; simp at hm; subst hm; subst h2; exact ⟨_, hself, hsp, h3⟩
+      · intro m hm
+        rcases out.okO with ⟨h1, h2⟩ | ⟨m', h1, h2, h3⟩
+        · rw [h1] at hm
+          obtain ⟨to, hto, hpo⟩ := h.okOwner m hm
+          by_cases hij : i = m.owner
+          · subst hij; rw [hti] at hto; simp at hto; subst hto
+            exact ⟨_, hself, h2 m hpo⟩
+          · exact ⟨to, by rw [List.getElem?_set_ne hij]; exact hto, hpo⟩
+        · rw [h1] at hm; simp at hm; subst hm; subst h2; exact ⟨_, hself, h3⟩
+    · have htm : tstep .repaired p c.st i t = tstepO .repaired c.st t := by simp [tstep, hs]
+      rw [htm]
+      obtain ⟨⟨l, hst⟩, ho', hcall⟩ := tstepO_out c.st t (h.o i t hti hs)
+      have hsp : (tstepO .repaired c.st t).2.spell ≠ 0 := by
+        have := congrArg Call.spell hcall; simp only [callOf] at this; rw [this]; exact hs
+      have hself : (c.ths.set i (tstepO .repaired c.st t).2)[i]? = some (tstepO .repaired c.st t).2 := by
+        simp [hlt]
+      rw [hst]
+      refine ⟨ginv_oclaims l h.g, ?_, ?_, ?_, ?_⟩
+      · intro j tj hj hsj
+        by_cases hij : i = j
+        · subst hij; rw [hself] at hj; simp at hj; subst hj; exact absurd hsj hsp
+        · rw [List.getElem?_set_ne hij] at hj; exact tinv_oclaims l (h.t j tj hj hsj)
+      · intro j tj hj hsj
+        by_cases hij : i = j
+        · subst hij; rw [hself] at hj; simp at hj; subst hj; exact ho'
+        · rw [List.getElem?_set_ne hij] at hj; exact h.o j tj hj hsj
+      · intro m hm
+        obtain ⟨to, hto, hso, hpo⟩ := h.pendOwner m hm
+        have hij : i ≠ m.owner := by
+          intro hij; subst hij; rw [hti] at hto; simp at hto; subst hto; exact hs hso
+        exact ⟨to, by rw [List.getElem?_set_ne hij]; exact hto, hso, hpo⟩
+      · intro m hm
         obtain ⟨to, hto, hpo⟩ := h.okOwner m hm
-        by_cases hij : i = m.owner
-        · subst hij; rw [hti] at hto; simp at hto; subst hto
-          exact ⟨_, hself, h2 m hpo⟩
-        · exact ⟨to, by rw [List.getElem?_set_ne hij]; exact hto, hpo⟩
-      · rw [h1] at hm; simp at hm; subst hm; subst h2; exact ⟨_, hself, h3⟩
+        have hij : i ≠ m.owner := by
+          intro hij; subst hij; rw [hti] at hto; simp at hto; subst hto
+          exact (h.o _ _ hti hs).noOk m hpo
+        exact ⟨to, by rw [List.getElem?_set_ne hij]; exact hto, hpo⟩
 
 theorem inv_create {p c} (h : Inv p c) : Inv p (step .repaired p c .create) := by
   simp only [step]
@@ -478,15 +556,15 @@ theorem inv_create {p c} (h : Inv p c) : Inv p (step .repaired p c .create) := b
   · exact h
   · rename_i hc
     have hg := h.g
-    refine ⟨?_, ?_, h.pendOwner, h.okOwner⟩
+    refine ⟨?_, ?_, h.o, h.pendOwner, h.okOwner⟩
     · have ⟨h1, h2, h3, h4, h5, h6, h7, h8⟩ := hg
       refine ⟨h1, h2, h3, ?_, ?_, h6, ?_, ?_⟩
       · intro m hm; have := (h4 m hm).1; simp_all
       · intro hm; have := (h5 hm).1; simp_all
       · simp
       · simp
-    · intro i t hi
-      have ⟨a1, a2, a3, a4, a5, a6, a7, a8, a9⟩ := h.t i t hi
+    · intro i t hi hs
+      have ⟨a1, a2, a3, a4, a5, a6, a7, a8, a9⟩ := h.t i t hi hs
       refine ⟨a1, ?_, a3, a4, a5, ?_, a7, a8, a9⟩
       · intro hcr; have := a2 hcr; simp_all
       · intro hcr; have := a2 (by simp [hcr, Pc.critical]); simp_all
@@ -495,7 +573,7 @@ theorem inv_expire {p c} (h : Inv p c) : Inv p (step .repaired p c .expire) := b
   simp only [step]
   split
   · have hg := h.g
-    refine ⟨?_, ?_, h.pendOwner, h.okOwner⟩
+    refine ⟨?_, ?_, h.o, h.pendOwner, h.okOwner⟩
     · have ⟨h1, h2, h3, h4, h5, h6, h7, h8⟩ := hg
       refine ⟨h1, h2, h3, ?_, ?_, h6, ?_, h8⟩
       · intro m hm
@@ -511,8 +589,8 @@ theorem inv_expire {p c} (h : Inv p c) : Inv p (step .repaired p c .expire) := b
         · left; simp [h]
         · right; exact h
       · intro hp; simp at hp; exact h7 hp.1
-    · intro i t hi
-      have ⟨a1, a2, a3, a4, a5, a6, a7, a8, a9⟩ := h.t i t hi
+    · intro i t hi hs
+      have ⟨a1, a2, a3, a4, a5, a6, a7, a8, a9⟩ := h.t i t hi hs
       exact ⟨a1, a2, a3, a4, a5, a6, a7, a8, a9⟩
   · exact h
 
@@ -607,8 +685,14 @@ theorem holdsCore_of_inv {p : Params} {c : Config} (h : Inv p c) :
         m.tup = (t.listener, t.laddr, p.tc, p.ta) ∧ b = c.st.maps.any (fun x => x.id == m.id) := by
     intro i t tp b hi ho
     obtain ⟨m, hm, h1, h2, _⟩ := oresOf_ok ho
-    have := (h.t i t hi).resOk m hm
+    have hs : t.spell = 0 := Classical.byContradiction (fun hs => (h.o i t hi hs).noOk m hm)
+    have := (h.t i t hi hs).resOk m hm
     exact ⟨m, this.1, this.2.1, h1, this.2.2.1, this.2.2.2.1, h2⟩
+  have hrk : ∀ (i : Nat) (t : Thread), c.ths[i]? = some t → oresOf c.st t = .rok → c.st.revDone = true ∧ t.kind = .revoke := by
+    intro i t hi ho
+    have hr := (oresOf_rok ho).1
+    have hs : t.spell = 0 := Classical.byContradiction (fun hs => (h.o i t hi hs).noRok hr)
+    exact (h.t i t hi hs).resRok hr
   have hmem : ∀ m, c.st.okMap = some m → m ∈ c.st.maps := by
     intro m hm
     have : m ∈ c.st.maps.filter (fun m => !m.pre) := by rw [h.g.exact, hm]; simp
@@ -638,7 +722,7 @@ theorem holdsCore_of_inv {p : Params} {c : Config} (h : Inv p c) :
       obtain ⟨i, t, hi, rfl⟩ := hres r hr
       have hrok : .rok ∈ (obs c).results := by simpa using hc
       obtain ⟨j, tj, hj, hoj⟩ := hres _ hrok
-      have hrd := ((h.t j tj hj).resRok (oresOf_rok hoj).1).1
+      have hrd := (hrk j tj hj hoj).1
       cases ho : oresOf c.st t <;> simp [ORes.isOk]
       obtain ⟨m, hm, _⟩ := hok i t _ _ hi ho
       have := h.g.excl (by simp [hm]); simp [hrd] at this
@@ -652,7 +736,7 @@ theorem holdsCore_of_inv {p : Params} {c : Config} (h : Inv p c) :
       obtain ⟨m, hm, _, h2, h3, h4, h5⟩ := hok i t _ _ hi ho
       simp [callOf, h3, h2, h4, h5, hin m hm]
     | rok =>
-      have := ((h.t i t hi).resRok (oresOf_rok ho).1).2
+      have := (hrk i t hi ho).2
       simp [callOf, this]
     | err _ => simp
     | running => simp
@@ -670,7 +754,7 @@ theorem holdsCore_of_inv {p : Params} {c : Config} (h : Inv p c) :
         cases hp : c.st.pending with
         | none => rfl
         | some m =>
-          obtain ⟨t, ht, hpp⟩ := h.pendOwner m hp
+          obtain ⟨t, ht, _, hpp⟩ := h.pendOwner m hp
           have := hdone _ t ht; simp [this, Pc.hasPending] at hpp
       have hmaps : (obs c).maps = c.st.okMap.toList.map Mapping.tup := by
         simp [obs, h.g.exact, hpn]
@@ -715,7 +799,7 @@ theorem holdsCore_of_inv {p : Params} {c : Config} (h : Inv p c) :
             · have hf := find_id h.g.nodup (hmem m hm)
               have hl : m.ListenClientID = m.tup.1 := rfl
               rw [hpres.2]; simp [ha, hb, hc, hf, h2, hl]
-          · have hrd := ((h.t i t hi).resRok (oresOf_rok ho).1).1
+          · have hrd := (hrk i t hi ho).1
             rcases (h.g.revRec hrd).2 with hh | hh
             · simp [hpres.1] at hh
             · rw [hpres.2]; simp [hh]
@@ -727,7 +811,7 @@ def freshThreads (ths : List Thread) : Bool := ths.all (fun t => t.pc == .start 
 
 theorem inv_init {p : Params} (preC preN : Nat) (ths : List Thread) (hf : freshThreads ths = true) :
     Inv p (init preC preN ths) := by
-  refine ⟨?_, ?_, ?_, ?_⟩
+  refine ⟨?_, ?_, ?_, ?_, ?_⟩
   · refine ⟨?_, ?_, ?_, ?_, ?_, ?_, ?_, ?_⟩
     · simp [init, initStore]
     · intro x hx
@@ -741,11 +825,16 @@ theorem inv_init {p : Params} (preC preN : Nat) (ths : List Thread) (hf : freshT
     · intro hm; simp [init, initStore] at hm
     · intro hm; simp [init, initStore] at hm
     · intro hm; simp [init, initStore] at hm
-  · intro i t hi
+  · intro i t hi _
     have ht := List.mem_of_getElem? hi
     simp only [freshThreads, List.all_eq_true, Bool.and_eq_true, beq_iff_eq] at hf
     have := hf t ht
     constructor <;> simp_all [init, initStore, Pc.inCS, Pc.critical, Pc.hasPending]
+  · intro i t hi _
+    have ht := List.mem_of_getElem? hi
+    simp only [freshThreads, List.all_eq_true, Bool.and_eq_true, beq_iff_eq] at hf
+    have := hf t ht
+    exact ⟨fun m hm => by simp [this.2] at hm, fun hm => by simp [this.2] at hm⟩
   · intro m hm; simp [init, initStore] at hm
   · intro m hm; simp [init, initStore] at hm
 
@@ -769,6 +858,11 @@ theorem calls_step {p : Params} (v : Variant) (c : Config) (e : Ev) :
       have hfin : ∀ (t : Thread) r, callOf (fin v t r) = callOf t := fun _ _ => rfl
       have : callOf (tstep v p c.st i t).2 = callOf t := by
         unfold tstep
+        split
+        rotate_left
+        · unfold tstepO
+          (repeat' split) <;> rfl
+        unfold tstepMain
         (repeat' split) <;> first
           | rfl
           | (unfold claimStep; (repeat' split) <;> rfl)
